@@ -257,6 +257,7 @@ def run(ctx):
         "R4.slab-count": "a counter or free-list write made before the user initialiser survives its panic",
         "R4.pool-length": "same, at pool level",
         "R5.vacancy": "vacancy bookkeeping split around user code leaves the tracker and the slabs disagreeing after a panic",
+        "R8.slab-drop": "a slab dropped while a user panic unwinds must not raise its own panic (the non-empty-drop policy assertion is guarded by !thread::panicking()): a second panic aborts the process instead of propagating the user's",
     })
 
     # ---------------- R6: RefCell access discipline of the Local* pools
